@@ -96,6 +96,10 @@ func c04derive(base *zap.Logger, variant, t int) *taskLogger {
 		l = base.With(zap.Namespace("ns"), zap.Int("task", t))
 	case 5:
 		l = base.Named("a").With(zap.Bool("x", true)).Named(fmt.Sprintf("b%d", t))
+	case 6:
+		l = base.With(zap.Reflect("cfg", yieldJSON{t}), zap.Int("task", t))
+	case 7:
+		l = base.With(zap.Reflect("cfg", map[string]int{"t": t})).With(zap.Object("yo", yieldObj{t}), zap.Reflect("r2", yieldJSON{t + 100}))
 	}
 	tl := &taskLogger{l: l, s: l.Sugar(), std: map[zapcore.Level]*log.Logger{}}
 	tl.sl = slog.New(zapslog.NewHandler(l.Core()))
@@ -243,7 +247,7 @@ func runC04(c *Ctx) {
 	}
 	var tasks []*c04task
 	for t := 0; t < nTasks; t++ {
-		tk := &c04task{variant: g.Draw(6)}
+		tk := &c04task{variant: g.Draw(8)}
 		n := 1 + g.Draw(maxCalls)
 		for s := 0; s < n; s++ {
 			call := &c04call{task: t, seq: s, lvl: stdLevels[g.Weighted(1, 4, 2, 2)], front: g.Draw(nFrontEnds), rich: g.Draw(20) - 10}
